@@ -15,7 +15,7 @@ META = dict(
     technique="exhaustive enumeration of crystals x orientations x energies x excitation-error / g limits x thickness lists x evaluation modes; conservation laws and a two-path differential oracle",
     text="For 6 crystals (all centerings), 4 orientations, 2 energies, 3 sg_max, 2 g_max, 3 thickness specifications, lazy and eager and both "
          "Bloch-wave equations the real BlochWaves calculation is run and checked for unit total intensity, the zero-thickness limit, lazy/eager "
-         "agreement, a Hermitian structure matrix and agreement between the matrix-exponential and eigen-decomposition paths. Six lazy results are evaluated together in every one of their 57 subsets (one dask.compute call) and compared with their own eager results.",
+         "agreement (also with partial occupancy and thermal damping set on the StructureFactor), a Hermitian structure matrix and agreement between the matrix-exponential and eigen-decomposition paths. Six lazy results are evaluated together in every one of their 57 subsets (one dask.compute call) and compared with their own eager results.",
     note="Bound: <= ~700 beams. Tolerance 1e-6 on the conserved flux sum I_g/M_g^2 and on expm-vs-eigh; the plain sum of intensities is allowed to deviate from 1 by max|M_g^2 - 1| (the HOLZ correction factors, ~1e-3 off the zone axis, 0 for ZOLZ beams).",
 )
 TOL = 1e-6  # expm path vs eigen-decomposition path
@@ -51,6 +51,11 @@ def check(ctx):
         if q and ((weq and (rot, th) != (0, 1)) or (sg == 0.3 and g == 3.0) or (e == 100e3 and rot not in (0, 1)) or (lazy and th != 1)):
             continue
         cases.append({"crystal": cr, "rot": rot, "energy": e, "sg_max": sg, "g_max": g, "th": th, "lazy": lazy, "wave_eq": weq})
+    # structure-factor options (partial occupancy, thermal damping) must reach the lazy and the eager path alike
+    for cr, rot, lazy, sfo in itertools.product(CRYSTALS, (0, 1), (False, True), ("occ", "occ-dict", "sigma", "occ+sigma")):
+        if q and rot == 1 and not lazy:
+            continue
+        cases.append({"crystal": cr, "rot": rot, "energy": 200e3, "sg_max": 0.1, "g_max": 2.0, "th": 1, "lazy": lazy, "wave_eq": False, "sf": sfo})
     # several lazy results evaluated in ONE dask graph: every subset (size >= 2) of the orientation series, and two energies / thickness
     # lists of one orientation, must give what each member gives on its own
     for cr in (CRYSTALS[:2] if q else CRYSTALS):
@@ -116,7 +121,10 @@ def run_case(c):
         viol.append({"key": key, "msg": "%s (%s)" % (msg, c)})
 
     atoms = crystal(c["crystal"])
-    sf = abtem.bloch.StructureFactor(atoms, g_max=2 * c["g_max"])
+    syms = sorted(set(atoms.get_chemical_symbols()))
+    sfkw = {None: {}, "occ": {"occupancy": 0.6}, "occ-dict": {"occupancy": {s_: 0.9 - 0.3 * i for i, s_ in enumerate(syms)}}, "sigma": {"thermal_sigma": 0.08},
+            "occ+sigma": {"occupancy": 0.7, "thermal_sigma": {s_: 0.05 + 0.03 * i for i, s_ in enumerate(syms)}}}[c.get("sf")]
+    sf = abtem.bloch.StructureFactor(atoms, g_max=2 * c["g_max"], **sfkw)
     bw = abtem.bloch.BlochWaves(sf, energy=c["energy"], sg_max=c["sg_max"], g_max=c["g_max"], use_wave_eq=c["wave_eq"])
     rot = ROT[c["rot"]]
     if rot is not None:
